@@ -1,9 +1,10 @@
 (* Extraction of the C19 model for the correspondence driver.  ExtrOcamlBasic and
    ExtrOcamlString only: N, Z, positive, nat stay the extracted inductive datatypes. *)
-From SV Require Import Base.Prelude Model.Sched Model.MergeChan Model.MetaUpdate.
+From SV Require Import Base.Prelude Model.Sched Model.MergeChan Model.MetaUpdate Model.FetchPlan.
 Require Extraction.
 Require Import ExtrOcamlBasic ExtrOcamlString.
 Extraction Language OCaml.
 Extraction "../ocaml/c19/model.ml" init step run run_op run_ops spec_check a_init stress_ok
   Z.to_N N.to_nat N.of_nat
+  note_full note_routes note_topology plan_empty resolve
   trace_mops run_mops h_init view model_status status_ok requested latest_peers.
